@@ -107,18 +107,24 @@ def _get_handshake_headers(
     key = _create_sec_websocket_key()
 
     # Append Sec-WebSocket-Key & Sec-WebSocket-Version if not manually specified
-    if not options.get("header") or "Sec-WebSocket-Key" not in options["header"]:
+    # (a None value in a header dict means "not given", as for every other header)
+    manual = options.get("header")
+    manual = manual if isinstance(manual, dict) else {}
+    if manual.get("Sec-WebSocket-Key") is None:
         headers.append(f"Sec-WebSocket-Key: {key}")
     else:
-        key = options["header"]["Sec-WebSocket-Key"]
+        key = manual["Sec-WebSocket-Key"]
 
-    if not options.get("header") or "Sec-WebSocket-Version" not in options["header"]:
+    if manual.get("Sec-WebSocket-Version") is None:
         headers.append(f"Sec-WebSocket-Version: {VERSION}")
 
     if not options.get("connection"):
         headers.append("Connection: Upgrade")
-    else:
+    elif options["connection"].lower().startswith("connection:"):
         headers.append(options["connection"])
+    else:
+        # the option is documented as the header's value
+        headers.append(f'Connection: {options["connection"]}')
 
     if subprotocols := options.get("subprotocols"):
         headers.append(f'Sec-WebSocket-Protocol: {",".join(subprotocols)}')
